@@ -392,7 +392,17 @@ CLAIMS = {
          "resolution, typer elaboration, match compilation). Where a value does not reveal what types decide SrcSem answers "
          "`unsupported:<why>` and the check falls back to Core for that program (evidence: counts and reasons). Proved about SrcSem "
          "(Props/C01src.lean): struct patterns and struct literals are invariant under permutation of their written fields, initialisers "
-         "run in written order, environments are only passed down, lookup = the C05 resolver model's lookup.",
+         "run in written order, environments are only passed down, lookup = the C05 resolver model's lookup. "
+         "PIPELINE COMPOSITION (Props/C01pipe.lean): the per-pass theorems are chained into one theorem about the composite middle-end model "
+         "pipeline = anf . lift . mono (Model/Pipeline.lean; pass order re-extracted from pipeline.rs every run): pipeline_preserves - for every "
+         "Core program in the decidable InPipeFragment, every definite Sem run of main (normal end or panic, with stdout and extern events) is "
+         "reproduced by the ANF program, for every sufficiently large fuel, under either go schedule. Links: a NEW lock-step simulation of mono "
+         "under the full Sem (closures, renamed instances and type instances; Lemmas/PipeMonoSim.lean), lift_preserves_partial (C08), "
+         "anf_run_preserves_partial (C09). pipeline_preserves_partial: the same from the Mono program on, for programs with ETraitCall (whose "
+         "Core->Mono link needs type soundness). end_to_end_partial continues to Go.Sem of the emitted file with go/compile.rs (CompileSim) and "
+         "the file-level lifting of dce_preserves (DceFileSim) as explicit hypotheses (parameters, not axioms). Tie: the composite model on the "
+         "REAL Core dump equals the REAL Mono, Lift and ANF dumps for every corpus and generated program; the evidence reports how many real "
+         "programs lie inside each fragment and why the others do not.",
     design_ref="§5 C01",
     note="Trusted: Sem/Go.Sem as definitions (Go.Sem reproduces all recorded corpus outputs), harness IR serialisers, the generator's coverage. "
          "Not covered: go_pprint.rs (AST is dumped before printing), real goroutine interleavings, Go's float formatting. "
